@@ -34,10 +34,10 @@ CLAIMED = {
              text="Decides acceptance/rejection, reported direction, single-column storage, snapshot keys and pass-through for every sequence of <= 3 (quick) / <= 4 (thorough) operators by interpreting the library's own validation code, plus agreement of declared flags with documentation and with the actual effects of each implementation.",
              ref="§5 C20"),
  "C01": dict(technique="exhaustive abstract interpretation (order domain with exact successor semantics, finite neighbourhood scenarios) of router eligibility, MST tilt and priority-flood step; typestate rule on the recomputation of donors/orders",
-             text="Decides the resolver->router contract for every order-isomorphism class of neighbourhoods: any strictly lower unmasked neighbour is eligible in all three router bodies, base/masked nodes never drain, both resolvers leave every reached node strictly above its parent/receiver. Termination, acyclicity and reachability on arbitrary graphs are not decided.",
+             text="Decides the resolver->router contract for every order-isomorphism class of neighbourhoods: any strictly lower unmasked neighbour is eligible in all three router bodies, base/masked nodes never drain, both resolvers leave every reached node strictly above its parent/receiver; the MST resolver acts whenever a pit exists; and, bounded end to end (mst_sink_resolver::apply as a whole on small node graphs, all elevation assignments from 3 levels), every node reaches a base level along strictly decreasing elevations. Termination, acyclicity and reachability on larger graphs are not decided.",
              ref="§5 C01"),
  "C02": dict(technique="abstract interpretation with a write log of the two elevation write sites over all order classes of the compared values; exact result on tree-shaped abstract neighbourhoods",
-             text="Decides the shape-level clauses only: every elevation write raises, masked/base/outlet nodes are never written, and on tree-shaped neighbourhoods the result is exactly the spill level plus one increment. The minimax characterisation on general graphs and the agreement of resolver variants are not decided.",
+             text="Decides the shape-level clauses only: every elevation write raises, masked/base/outlet nodes are never written, on tree-shaped neighbourhoods the result is exactly the spill level plus one increment, and -- bounded -- the minimax spill level within one increment per node for the priority flood on every graph of <= 3/4 nodes and for the spanning-tree resolver (apply() end to end) on small node graphs. Larger graphs are not decided.",
              ref="§5 C02 / §6"),
  "C04": dict(technique="exhaustive abstract interpretation (order/flag domain, whitelisted lemmas) of single_flow_router::apply -- sequential body and parallel callable -- over all neighbourhood scenarios, against a declarative steepest-descent oracle; sibling outcome agreement",
              text="Decides the receiver-selection logic for every input up to order isomorphism of the neighbourhood (<= 2 quick / 3 thorough neighbours enumerated): own receiver iff no unmasked strictly lower neighbour, else an argmax of the computed slope with its distance, weight one; sequential and parallel bodies agree. Correctness of grid.neighbors() is C07; float vs real slope order is not decided.",
